@@ -8,6 +8,7 @@ package simchain
 import (
 	"encoding/binary"
 	"fmt"
+	"github.com/btcsuite/btcwallet/chain"
 	"sync"
 	"time"
 
@@ -237,6 +238,58 @@ func (c *Chain) AddToMempool(tx *wire.MsgTx) {
 	for _, cl := range clients {
 		cl.mempoolTx(tx)
 	}
+}
+
+// Offer is what a node does with a transaction a client submits, as one atomic
+// step: a transaction it already holds is answered with "already in mempool"; a
+// transaction already in the best chain is taken note of and changes nothing;
+// a transaction spending an output that a confirmed or a held transaction
+// already spends is refused; anything else enters the mempool.
+func (c *Chain) Offer(tx *wire.MsgTx) error {
+	c.mu.Lock()
+	h := tx.TxHash()
+	spends := map[wire.OutPoint]bool{}
+	for _, in := range tx.TxIn {
+		spends[in.PreviousOutPoint] = true
+	}
+	for _, m := range c.mempool {
+		if m.TxHash() == h {
+			c.mu.Unlock()
+			return chain.ErrTxAlreadyInMempool
+		}
+		for _, in := range m.TxIn {
+			if spends[in.PreviousOutPoint] {
+				c.mu.Unlock()
+				return chain.ErrMempoolConflict
+			}
+		}
+	}
+	for _, b := range c.best {
+		for _, btx := range b.Msg.Transactions {
+			if btx.TxHash() == h {
+				c.mu.Unlock()
+				return nil
+			}
+		}
+	}
+	for _, b := range c.best {
+		for _, btx := range b.Msg.Transactions[1:] {
+			for _, in := range btx.TxIn {
+				if spends[in.PreviousOutPoint] {
+					c.mu.Unlock()
+					return chain.ErrMissingInputsOrSpent
+				}
+			}
+		}
+	}
+	c.mempool = append(c.mempool, tx)
+	c.txIndex[h] = tx
+	clients := append([]*Client(nil), c.clients...)
+	c.mu.Unlock()
+	for _, cl := range clients {
+		cl.mempoolTx(tx)
+	}
+	return nil
 }
 
 // DropFromMempool removes a transaction (and nothing else) from the mempool.
